@@ -143,7 +143,101 @@ pub fn alpha() -> Alpha {
     }
 }
 
+/// K inbound packets made available by one transport event (after a subscription with a live stream exists)
+fn burst_inbound(seed: u64, v: Variant, k: usize) -> (World, Obs) {
+    let mut w = world_for(seed, v);
+    let s = w.start(0, Kind::Sub);
+    w.settle_check();
+    w.deliver_ack(s, 1, 0, 0);
+    w.settle_check();
+    w.take_stream(s);
+    let sid = w.sub_id_of(s).unwrap_or(1);
+    w.sim.capture = Some(Vec::new());
+    for j in 0..k {
+        w.in_publish((j % 3) as u8, 1 + j as u16, false, &[sid], false);
+        if j % 3 == 2 {
+            w.in_pubrel(1 + j as u16);
+        }
+    }
+    let bytes = w.sim.capture.take().unwrap();
+    w.sim.note(|| format!("deliver {k} PUBLISH packets ({} bytes) in one transport event", bytes.len()));
+    w.sim.feed(&bytes);
+    w.settle_check();
+    finish(&mut w);
+    let o = observe(&mut w);
+    (w, o)
+}
+
+/// K requests already queued when the context task gets to run
+fn burst_requests(seed: u64, v: Variant, k: usize) -> (World, Obs) {
+    let mut w = world_for(seed, v);
+    w.sim.hold_ctx = true;
+    let kinds = [Kind::Pub0, Kind::Pub1, Kind::Ping, Kind::Pub2, Kind::Unsub, Kind::Sub];
+    for j in 0..k {
+        w.start(j % 2, kinds[j % kinds.len()]);
+    }
+    w.sim.hold_ctx = false;
+    w.sim.note(|| format!("context released with {k} requests queued"));
+    w.settle_check();
+    finish(&mut w);
+    let o = observe(&mut w);
+    (w, o)
+}
+
+fn bursts(rep: &mut Rep) {
+    let sizes: Vec<usize> = if rep.quick() { vec![1, 7, 15, 16, 17, 31, 32, 33, 64, 100] } else { (1..=70).chain([100, 127, 128, 129, 255, 256, 257, 500, 1000]).collect() };
+    rep.note(&format!("bursts: {:?} inbound packets made available by one transport event, and as many requests already queued when the context runs, each under wake-only vs sweep vs spurious-poll executors and 3 reader plans", sizes));
+    let mut idx = 80_000_000u64;
+    for &k in &sizes {
+        for kind in 0..2u8 {
+            let id = format!("burst:{kind}:{k}");
+            idx += 1;
+            if !rep.take(idx, &id) {
+                continue;
+            }
+            let base = Variant { discipline: 0, reader: 0, writer: 0, order: 0 };
+            let (mut w0, ref_obs) = if kind == 0 { burst_inbound(rep.seed, base, k) } else { burst_requests(rep.seed, base, k) };
+            rep.add("evaluations", 1);
+            rep.add("burst_cases", 1);
+            rep.distinct(&("burst", kind, k, 0u8));
+            let mut nv = harvest(rep, &mut w0, &id);
+            add_counters(rep, &w0);
+            for (vi, v) in [
+                Variant { discipline: 1, reader: 0, writer: 0, order: 1 },
+                Variant { discipline: 2, reader: 0, writer: 0, order: 2 },
+                Variant { discipline: 0, reader: 1, writer: 1, order: 3 },
+                Variant { discipline: 1, reader: 4, writer: 2, order: 0 },
+                Variant { discipline: 3, reader: 2, writer: 0, order: 1 },
+            ]
+            .iter()
+            .enumerate()
+            {
+                let (mut w, obs) = if kind == 0 { burst_inbound(rep.seed, *v, k) } else { burst_requests(rep.seed, *v, k) };
+                rep.add("evaluations", 1);
+                rep.add("variant_runs", 1);
+                rep.distinct(&("burst", kind, k, vi as u8 + 1));
+                if let Some((field, d)) = diff_obs(&ref_obs, &obs) {
+                    let which = match v.discipline {
+                        0 => "wake-only",
+                        1 => "sweep-after-every-event",
+                        _ => "spurious-polls",
+                    };
+                    w.viol(&["C16"], format!("C16/observation-differs/{which}/{field}"), format!("burst of {k} ({}), variant {v:?} vs wake-only reference: {d}", if kind == 0 { "inbound packets in one read" } else { "queued requests" }));
+                } else {
+                    rep.add("identical_observations", 1);
+                }
+                nv += harvest(rep, &mut w, &format!("{id}:v{vi}"));
+                add_counters(rep, &w);
+            }
+            if nv == 0 {
+                rep.sample(|| format!("{id}: burst of {k} -> {} requests written, {} acks written, identical under all variants", ref_obs.requests.len(), ref_obs.acks.len()));
+            }
+        }
+    }
+}
+
 pub fn run(rep: &mut Rep) {
+    bursts(rep);
     let a = alpha();
     let scripts = if rep.quick() { 500 } else { 80000 };
     let steps = 28;
